@@ -107,6 +107,40 @@ def replay_state(st):
                         bad.append(("C10.max-optimum", dict(kind="smaller-than-lattice-point", **wd), gbest, mine, r))
                 if opt is not None and abs(mine - opt) > 4 * TOL * (1 + opt):
                     bad.append(("C10.max-optimum", dict(kind="lp-over-exact-strips", **wd), opt, mine, r))
+    # nearly achromatic target sets: same intensity direction, chroma offset contracted by EPSC = 2^-12.  By the spec's
+    # strip homogeneity (Adaptive!StripHomogeneity, checked by TLC on the integer instances m = 1..3) their exact strips
+    # are the recorded ones with b multiplied by EPSC, so the optimal chroma scale of 'max' is in the thousands
+    EPSC = 2.0 ** -12
+    for r in sorted(st["recs"], key=lambda r: r["Bs"])[:5]:
+        B0 = np.asarray(r["Bs"], float) / S
+        N0 = nu0[None, :] / L0 * B0.sum(1)[:, None]
+        Bc = N0 + EPSC * (B0 - N0)
+        if np.any(np.max(np.abs(B0 - N0), axis=1) < 1e-9):
+            continue
+        strips = [dict(a=t["a"], b=t["b"] * EPSC, lo=t["lo"], hi=t["hi"]) for t in r["strips"]]
+        opt = lp_max(strips, w)
+        if opt in (None, "unbounded"):
+            continue
+        wd = dict(objective="max", rows=len(Bc), chroma_contracted="2^-12", **where0)
+        kw = dict(adaptive_objective="max", scale_w=w.copy(), delta_norm1=DELTA, delta_radius=DELTA, solver="CLARABEL")
+        if not default_neutral:
+            kw["neutral_point"] = nu0.copy()
+        try:
+            X, scales, Bp = est.fit_adaptive(Bc.copy(), **kw)
+            n += 1
+        except Exception as ex:
+            bad.append(("C10.no-error", dict(exc=type(ex).__name__, **wd), None, repr(ex)[:200], r))
+            continue
+        X, scales = np.asarray(X, float), np.asarray(scales, float)
+        rng = ub - lb
+        if np.any(X < lb - 1e-6 * rng - 1e-7) or np.any(X > ub + 1e-6 * rng + 1e-7):
+            bad.append(("C10.bounds", wd, [lb.tolist(), ub.tolist()], X.tolist(), r))
+        pred = (X @ A.T + blv) @ Kmat.T
+        if np.max(np.abs(pred - scales[0] * N0 - scales[1] * (Bc - N0))) > 10 * DELTA + 1e-5:
+            bad.append(("C10.chroma-identity", wd, (scales[0] * N0 + scales[1] * (Bc - N0)).tolist(), pred.tolist(), r))
+        mine = float(w @ scales)
+        if abs(mine - opt) > 4 * TOL * (1 + opt):
+            bad.append(("C10.max-optimum", dict(kind="lp-over-exact-strips", **wd), opt, mine, r))
     # the two tolerances are independent keywords: unequal pairs, each residual judged against its OWN delta
     for r in sorted(st["recs"], key=lambda r: r["Bs"])[:6]:
         B = np.asarray(r["Bs"], float) / S
